@@ -1,4 +1,4 @@
-From Verif Require Import Lib.Base Roothash.Pool Roothash.PoolSpec Roothash.PoolProofs Roothash.PoolInv Roothash.Verify Roothash.VerifyProofs Roothash.App Roothash.AppProofs.
+From Verif Require Import Lib.Base Roothash.Pool Roothash.PoolSpec Roothash.PoolProofs Roothash.PoolInv Roothash.Verify Roothash.VerifyProofs Roothash.App Roothash.AppProofs Roothash.EarlyDetect.
 
 Theorem finalize_only_if_rule :
   forall (c : committee) (p : pool) (strag : N) (timeout : bool) (p' : pool) (sc : sched_commitment),
@@ -249,3 +249,12 @@ Theorem process_ignores_non_member_votes :
     = outcome_code (process_inner c p strag timeout).
 Proof. exact process_ignores_non_member_votes. Qed.
 Print Assumptions process_ignores_non_member_votes.
+
+Theorem early_detection_equals_final :
+  forall (hr0 strag : N) (timeout : bool) (votes : list (N * option N)) (ms : committee),
+    (gather false hr0 strag timeout votes ms tally0 = None <->
+     exit_enabled hr0 timeout = true /\ bad strag (gather_all false votes ms tally0) = true)
+    /\ (forall t, gather false hr0 strag timeout votes ms tally0 = Some t ->
+                  t = gather_all false votes ms tally0).
+Proof. exact early_detection_equals_final. Qed.
+Print Assumptions early_detection_equals_final.
